@@ -80,6 +80,31 @@ func genValue(rng *core.Rng, oid uint32) any {
 			return rng.Bytes(1 + rng.Intn(3000))
 		}
 		return rng.Bytes(1 + rng.Intn(24))
+	case pg.OIDNumeric:
+		if edge {
+			// the values without digits (all of eight bytes in binary), the digit-group boundaries, display
+			// scales beyond the digits
+			return pg.Numeric(core.Pick(rng, []string{"0", "0.00", "0.0000000000", "NaN", "Infinity", "-Infinity", "1", "-1", "9999", "10000", "-10000", "0.0001", "0.00010000", "1.5", "100000000", "32767", "-32768", "2147483647", "9223372036854775807",
+				"123456789012345678901234567890.123456789", "-0.000000000000000000001", "99999999.99999999"}))
+		}
+		ds := func(n int) string {
+			b := make([]byte, n)
+			for i := range b {
+				b[i] = '0' + byte(rng.Intn(10))
+			}
+			return string(b)
+		}
+		s := strings.TrimLeft(ds(1+rng.Intn(24)), "0")
+		if s == "" {
+			s = "0"
+		}
+		if rng.Bool() {
+			s += "." + ds(1+rng.Intn(12))
+		}
+		if rng.Intn(3) == 0 {
+			s = "-" + s
+		}
+		return pg.Numeric(s)
 	case pg.OIDBit, pg.OIDVarbit:
 		n := core.Pick(rng, []int{0, 1, 7, 8, 9, 15, 16, 17, 24, 32, 64, 1 + rng.Intn(70)})
 		d := make([]byte, n)
